@@ -64,6 +64,38 @@ def sibling_transfer(ctx, rule, fi, key_prefix):
               "the integer-shift branch does not place the old data at [shift : shift + old length]", fi.where)
 
 
+def check_merged_edges(ctx, rule, m):
+    """apply_bin_map: a run starts with its first bin's pair, later bins move only the right edge, and a later bin whose
+    left edge differs (exactly) from the current right edge is refused."""
+    BB = m.cls("BinningBase")
+    ab = BB.methods["apply_bin_map"]
+    ctx.saw(ab)
+    gap_ok = first_ok = later_ok = nan_ok = False
+    for path in function_paths(ab.node):
+        for i, s in enumerate(path):
+            if s[0] == "cond":
+                e = s[1]
+                if isinstance(e, ast.Compare) and len(e.ops) == 1 and {U(e.left), U(e.comparators[0])} == {"bins[new, 1]", "self.bins[old, 0]"}:
+                    if isinstance(e.ops[0], ast.NotEq) and s[2] and end_kind(path) == "raise" and path[i + 1][0] == "stmt" and isinstance(path[i + 1][1], ast.Raise):
+                        gap_ok = True
+                    if isinstance(e.ops[0], ast.NotEq) and not s[2]:
+                        nxt = [U(x[1]) for x in path[i + 1:i + 2] if x[0] == "stmt"]
+                        if nxt == ["bins[new, 1] = self.bins[old, 1]"]:
+                            later_ok = True
+                if U(e) == "np.isnan(bins[new, 0])" and s[2]:
+                    nxt = [U(x[1]) for x in path[i + 1:i + 2] if x[0] == "stmt"]
+                    if nxt == ["bins[new, :] = self.bins[old, :]"]:
+                        first_ok = True
+                if U(e) == "np.any(np.isnan(bins))" and s[2] and end_kind(path) == "raise":
+                    nan_ok = True
+    ctx.check(gap_ok, rule, "apply_bin_map:gap-refused", "bins[new,1] != self.bins[old,0] -> ValueError",
+              "merging across a gap is not refused exactly when the previous right edge differs from the next left edge "
+              "(e.g. `>` instead of `!=`)", ab.where)
+    ctx.check(first_ok and later_ok, rule, "apply_bin_map:run-edges", "first bin of a run sets both edges, later bins move the right edge only",
+              "a merged bin no longer reaches from the run's first left edge to its last right edge", ab.where)
+    return nan_ok
+
+
 def run(ctx):
     m = ctx.model
     HB, BB = m.cls("HistogramBase"), m.cls("BinningBase")
@@ -199,29 +231,7 @@ def run(ctx):
     if ab is None:
         raise AnalysisError("BinningBase.apply_bin_map not found")
     ctx.saw(ab)
-    gap_ok = first_ok = later_ok = nan_ok = False
-    for path in function_paths(ab.node):
-        for i, s in enumerate(path):
-            if s[0] == "cond":
-                e = s[1]
-                if isinstance(e, ast.Compare) and len(e.ops) == 1 and {U(e.left), U(e.comparators[0])} == {"bins[new, 1]", "self.bins[old, 0]"}:
-                    if isinstance(e.ops[0], ast.NotEq) and s[2] and end_kind(path) == "raise" and path[i + 1][0] == "stmt" and isinstance(path[i + 1][1], ast.Raise):
-                        gap_ok = True
-                    if isinstance(e.ops[0], ast.NotEq) and not s[2]:
-                        nxt = [U(x[1]) for x in path[i + 1:i + 2] if x[0] == "stmt"]
-                        if nxt == ["bins[new, 1] = self.bins[old, 1]"]:
-                            later_ok = True
-                if U(e) == "np.isnan(bins[new, 0])" and s[2]:
-                    nxt = [U(x[1]) for x in path[i + 1:i + 2] if x[0] == "stmt"]
-                    if nxt == ["bins[new, :] = self.bins[old, :]"]:
-                        first_ok = True
-                if U(e) == "np.any(np.isnan(bins))" and s[2] and end_kind(path) == "raise":
-                    nan_ok = True
-    ctx.check(gap_ok, "C10.c", "apply_bin_map:gap-refused", "bins[new,1] != self.bins[old,0] -> ValueError",
-              "merging across a gap is not refused exactly when the previous right edge differs from the next left edge "
-              "(e.g. `>` instead of `!=`)", ab.where)
-    ctx.check(first_ok and later_ok, "C10.c", "apply_bin_map:run-edges", "first bin of a run sets both edges, later bins move the right edge only",
-              "a merged bin no longer reaches from the run's first left edge to its last right edge", ab.where)
+    nan_ok = check_merged_edges(ctx, "C10.c", m)
     n_mr, off_mr = must_raise(ab.node, lambda e: U(e) == "np.any(np.isnan(bins))", when=True)
     nan_ok = nan_ok and n_mr >= 1 and not off_mr
     # the merged binning still closes its last bin on the right iff the source did and the last edge is unchanged
@@ -229,6 +239,16 @@ def run(ctx):
     ctor_ = [c for c in calls_in(ab.node) if U(c.func) == "StaticBinning"]
     okire = defs_ire in (["self.includes_right_edge and bins[-1, 1] == self.bins[-1, 1]"], ["bins[-1, 1] == self.bins[-1, 1] and self.includes_right_edge"]) \
         and len(ctor_) == 1 and U(kwarg(ctor_[0], "includes_right_edge")) == "includes_right_edge" and U(ctor_[0].args[0]) == "bins"
+    rets_ab = [n.value for n in ast.walk(ab.node) if isinstance(n, ast.Return)]
+    env_ab = {U(n.targets[0]): n.value for n in ast.walk(ab.node) if isinstance(n, ast.Assign) and isinstance(n.targets[0], ast.Name)}
+    def _is_static(v):
+        v = env_ab.get(v.id, v) if isinstance(v, ast.Name) else v
+        return isinstance(v, ast.Call) and U(v.func) == "StaticBinning" and v.args and U(v.args[0]) == "bins"
+    okire = okire and bool(rets_ab) and all(_is_static(v) for v in rets_ab)
+    others = [c.name for c in m.subclasses(BB) if "apply_bin_map" in c.methods]
+    ctx.check(not others, "C10.c", "apply_bin_map:single-implementation", "only BinningBase implements apply_bin_map (the implementation the rules above decide)",
+              f"{others} re-implement apply_bin_map: the merged edges of such a binning are not covered by the rules for BinningBase.apply_bin_map "
+              "and must keep every run's first left / last right edge", BB.where)
     ctx.check(okire, "C10.c", "apply_bin_map:right-edge-kept", "StaticBinning(bins, includes_right_edge = source flag and unchanged last edge)",
               f"includes_right_edge = {defs_ire}; constructor call {[U(c)[:70] for c in ctor_]}", ab.where)
     ctx.check(nan_ok, "C10.c", "apply_bin_map:complete", "an incomplete map (unfilled new bin) is refused", "incomplete maps are not refused", ab.where)
